@@ -255,6 +255,42 @@ theorem member_travels_with_group (st : St) (n g : Nat) (f : FileRes) (gr : Grou
     st.expandFiles (.file n) = n :: gr.members.map (·.2) := by
   simp [St.expandFiles, hf, hg, hgr]
 
+/-! ### what a PythonJob's function is handed -/
+
+/-- a file argument is handed as the resource's own local path -/
+theorem python_file_argument_path (st : St) (loc : Str) (n : Nat) : prepare1 st loc (.file n) = .path (st.path loc (.file n)) := rfl
+
+/-- a resource-group argument is handed as a dict over the group's identifiers whose values are the members' **own** local paths
+(not `<group root>.<identifier>`: the two differ as soon as a file suffix is not the identifier) -/
+theorem python_group_argument_paths (st : St) (loc : Str) (g : Nat) (gr : GroupRes) (hg : st.group? g = some gr) :
+    prepare1 st loc (.group g) = .dictPath (gr.members.map fun m => (m.1, st.path loc (.file m.2))) := by
+  simp [prepare1, hg]
+
+/-- every file among a job's inputs is downloaded to exactly the path `prepare1` hands out for it -/
+theorem handed_path_is_download_destination (st : St) (remote loc : Str) (c n : Nat) (f : FileRes) (hf : st.file? n = some f)
+    (hin : n ∈ (st.job c).inputs) : ∃ x, (x, st.path loc (.file n)) ∈ (jobPlan st remote loc c).inputs := by
+  cases f with
+  | input v ip g =>
+    refine ⟨ip, ?_⟩
+    simp only [jobPlan, List.mem_flatten, List.mem_map]
+    exact ⟨_, ⟨n, hin, rfl⟩, by simp [copyInput, hf]⟩
+  | jobFile j v g e =>
+    refine ⟨st.path remote (.file n), ?_⟩
+    simp only [jobPlan, List.mem_flatten, List.mem_map]
+    exact ⟨_, ⟨n, hin, rfl⟩, by simp [copyInput, hf]⟩
+
+/-- **python-call arguments are local paths** — a whole group passed to `j.call`: every path in the dict the function receives is
+a destination of the job's own `input_files` (the members are among the job's inputs by `pycall_links_partial`) -/
+theorem python_group_argument_is_downloaded (st : St) (remote loc : Str) (c g : Nat) (gr : GroupRes) (hg : st.group? g = some gr)
+    (hin : ∀ m ∈ gr.members, m.2 ∈ (st.job c).inputs) (hex : ∀ m ∈ gr.members, ∃ f, st.file? m.2 = some f) :
+    ∃ kvs, prepare1 st loc (.group g) = .dictPath kvs ∧ kvs.map (·.1) = gr.members.map (·.1) ∧
+      ∀ kv ∈ kvs, ∃ x, (x, kv.2) ∈ (jobPlan st remote loc c).inputs := by
+  refine ⟨_, python_group_argument_paths st loc g gr hg, by simp [Function.comp_def], ?_⟩
+  intro kv hkv
+  obtain ⟨m, hm, rfl⟩ := List.mem_map.mp hkv
+  obtain ⟨f, hf⟩ := hex m hm
+  exact handed_path_is_download_destination st remote loc c m.2 f hf (hin m hm)
+
 /-- the links are never removed while the rest of the command is interpolated -/
 theorem links_persist_within_command (st st' : St) (c : Nat) (ts : List Tok) (acc out : Str)
     (h : interpolateToks st c ts acc = .ok (st', out)) (j : Nat) :
@@ -271,6 +307,14 @@ example : Separated [.text ['c', 'a', 't', ' '], .ref .rf 0, .text [' ', '>', ' 
 example : jobDirname (some (List.replicate 300 'n')) ['t', 'k', '1'] ≠ jobDirname (some (List.replicate 300 'n')) ['t', 'k', '2'] :=
   job_dirs_distinct _ _ _ _ (by decide) (by decide) (by decide)
 example : jobDirname (some ['m', 'y', ' ', 'j', '/', 'b']) ['t', 'k', '7'] = ['m', 'y', '_', 'j', '_', 'b', '-', 't', 'k', '7'] := by decide
+-- identifiers that are not the file suffixes: the function gets out.vcf.gz / out.vcf.gz.tbi
+example : (match run [.job none,
+      .rgroup 0 ['o'] [(['v'], ['{', 'r', 'o', 'o', 't', '}', '.', 'g', 'z']), (['i'], ['{', 'r', 'o', 'o', 't', '}', '.', 't', 'b', 'i'])],
+      .cmd 0 [.text ['x', ' '], .ref (.jobAttr 0 ['o'])], .pyjob none, .pycall 1 [.res (.jobAttr 0 ['o'])]] with
+    | .ok st => some (preparedCalls st ['L'] 1)
+    | .error _ => none) =
+    some [[.one (.dictPath [(['v'], ['L', '/', 't', 'k', '1', '/', 'o', '.', 'g', 'z']), (['i'], ['L', '/', 't', 'k', '1', '/', 'o', '.', 't', 'b', 'i'])])]] := by
+  decide
 -- uids
 example : uid .rf 12 = ['_', '_', 'R', 'E', 'S', 'O', 'U', 'R', 'C', 'E', '_', 'F', 'I', 'L', 'E', '_', '_', '1', '2'] := by decide
 -- shlex.quote
